@@ -1028,7 +1028,7 @@ func (c *simCluster) deliver(i int) {
 			dst.r.timer.stop() // whether the handler re-arms the election timer then shows in the state
 		}
 		wire, lit, cut := m.wire, m.lit, false
-		if m.kind == rpcAppendEntries && !m.dup && (c.abs == nil || absCutEnabled) && c.cfg == nil && c.rnd.Intn(14) == 0 {
+		if m.kind == rpcAppendEntries && !m.dup && (c.abs == nil || absCutEnabled) && (c.cfg == nil || cfgCutEnabled) && c.rnd.Intn(14) == 0 {
 			// the connection breaks inside the request
 			if w2, es2, ok := cutAppendWire(c.rnd, m.wire); ok {
 				q, _ := decodeAppendWire(m.wire)
